@@ -259,6 +259,34 @@ def inline_temporaries(fn, known, gen_methods=()):
     return out
 
 
+def _fold_int(node, consts):
+    """Value of an integer expression over literals and already known constant names; None if it is anything else."""
+    import operator as _op
+    ops = {ast.Add: _op.add, ast.Sub: _op.sub, ast.Mult: _op.mul, ast.FloorDiv: _op.floordiv, ast.Mod: _op.mod, ast.LShift: _op.lshift,
+           ast.RShift: _op.rshift, ast.BitAnd: _op.and_, ast.BitOr: _op.or_, ast.BitXor: _op.xor, ast.Pow: _op.pow}
+    if isinstance(node, ast.Constant) and isinstance(node.value, int) and not isinstance(node.value, bool):
+        return node.value
+    if isinstance(node, ast.Name) and node.id in consts and isinstance(consts[node.id], ast.Constant) and \
+            isinstance(consts[node.id].value, int) and not isinstance(consts[node.id].value, bool):
+        return consts[node.id].value
+    if isinstance(node, ast.UnaryOp) and isinstance(node.op, (ast.USub, ast.UAdd, ast.Invert)):
+        v = _fold_int(node.operand, consts)
+        if v is None:
+            return None
+        return -v if isinstance(node.op, ast.USub) else (+v if isinstance(node.op, ast.UAdd) else ~v)
+    if isinstance(node, ast.BinOp) and type(node.op) in ops:
+        a, b = _fold_int(node.left, consts), _fold_int(node.right, consts)
+        if a is None or b is None:
+            return None
+        try:
+            if isinstance(node.op, (ast.Pow, ast.LShift)) and (b < 0 or b > 256):
+                return None
+            return ops[type(node.op)](a, b)
+        except (ZeroDivisionError, ValueError, OverflowError):
+            return None
+    return None
+
+
 def module_constants(tree, known_names):
     """{name: value node} of module-level names that did not exist when the rules were written, are bound exactly once,
     at module level, to a literal table / constant built from side-effect-free parts (a dict, tuple, list, set,
@@ -284,6 +312,13 @@ def module_constants(tree, known_names):
         if isinstance(inner, ast.Call) and isinstance(inner.func, ast.Name) and inner.func.id in ('frozenset', 'tuple', 'set', 'dict', 'list') \
                 and len(inner.args) == 1 and not inner.keywords:
             inner = inner.args[0]
+        if isinstance(inner, (ast.BinOp, ast.UnaryOp)):
+            # integer arithmetic over literals and earlier new constants (BOOL_BIT_MASK = BOOLS_PER_BYTE - 1): folded
+            folded = _fold_int(inner, out)
+            if folded is None:
+                continue
+            out[name] = ast.copy_location(ast.Constant(value=folded), val)
+            continue
         if not isinstance(inner, (ast.Dict, ast.Tuple, ast.List, ast.Set, ast.Constant)):
             continue
         if not is_pure(val):
